@@ -18,6 +18,7 @@ import (
 	"encoding/json"
 	"errors"
 	"flag"
+	"fmt"
 	"io"
 	"math/big"
 	"net"
@@ -574,6 +575,22 @@ func runHist(le *logrus.Entry, idx int, hist []string, emit func(map[string]any)
 			break
 		}
 	}
+	// a second request for the same peer at the same address while the first link is still there must be satisfied as well
+	if last := evs[len(evs)-1]; returned && last["e"] == "ret" && last["ok"] == true && last["remote"] == "X" && cur != nil {
+		evs = append(evs, map[string]any{"e": "dial"})
+		dctx, dcancel := context.WithTimeout(ctx, 20*time.Second)
+		// (canonical form of the address: the transport finds the existing link under it)
+		l, err := ctrl.DialPeerAddr(dctx, xid, &dialer.DialerOpts{Address: "addrS", Backoff: &backoff.Backoff{BackoffKind: backoff.BackoffKind_BackoffKind_CONSTANT, Constant: &backoff.Constant{Interval: 20}}})
+		dcancel()
+		ev := map[string]any{"e": "ret", "ok": err == nil && l != nil, "remote": "", "err": "", "again": true}
+		if l != nil {
+			ev["remote"] = name(l.GetRemotePeer())
+		}
+		if err != nil {
+			ev["err"] = err.Error()
+		}
+		evs = append(evs, ev)
+	}
 	evs = append(evs, map[string]any{"e": "end", "returned": returned})
 	if cur != nil {
 		cur.stop()
@@ -874,6 +891,54 @@ func runLinks(cases string, out *vio.Out, le *logrus.Entry) {
 	}
 }
 
+// runRedial: DialPeerAddr(X, addr) twice in a row while X keeps answering at addr: the second request must be satisfied too.
+func runRedial(out *vio.Out, le *logrus.Entry) {
+	n := &memNet{eps: map[string]*endpoint{}}
+	ctx, cancel := context.WithCancel(context.Background())
+	defer cancel()
+	lk := vio.Key("quicnet/ctl")
+	tb, err := testbed.NewTestbed(ctx, le, testbed.TestbedOpts{PrivKey: lk, NoEcho: true})
+	if err != nil {
+		vio.Fatal("%v", err)
+	}
+	defer tb.Release()
+	localID, _ := peer.IDFromPrivateKey(lk)
+	ep := n.bind("addrCtl")
+	ctor := func(ctx context.Context, le *logrus.Entry, pkey crypto.PrivKey, h transport.TransportHandler) (transport.Transport, error) {
+		t, err := pconn.NewTransport(ctx, le, pkey, h, slowOpts, 9, ep, parseAddr, nil)
+		if err != nil {
+			return nil, err
+		}
+		return &dialerTpt{t}, nil
+	}
+	ctrl := tptc.NewController(le, tb.Bus, controller.NewInfo("verif/quic", semver.MustParse("0.0.1"), ""), localID, false, ctor)
+	rel, err := tb.Bus.AddController(ctx, ctrl, nil)
+	if err != nil {
+		vio.Fatal("%v", err)
+	}
+	defer rel()
+	if _, err := ctrl.GetTransport(ctx); err != nil {
+		vio.Fatal("%v", err)
+	}
+	nodeOpts = slowOpts
+	x := startNode(n, le, "X", "addrS")
+	defer x.stop()
+	xid := vio.PeerID("quicnet/X")
+	res := map[string]any{"e": "redial"}
+	for k := 1; k <= 2; k++ {
+		dctx, dcancel := context.WithTimeout(ctx, 4*time.Second)
+		l, err := ctrl.DialPeerAddr(dctx, xid, &dialer.DialerOpts{Address: "addrS", Backoff: &backoff.Backoff{BackoffKind: backoff.BackoffKind_BackoffKind_CONSTANT, Constant: &backoff.Constant{Interval: 20}}})
+		dcancel()
+		res[fmt.Sprintf("dial%d_ok", k)] = err == nil && l != nil && l.GetRemotePeer() == xid
+		if err != nil {
+			res[fmt.Sprintf("dial%d_err", k)] = err.Error()
+		}
+		time.Sleep(50 * time.Millisecond)
+	}
+	res["links_to_x"] = len(ctrl.GetPeerLinks(xid))
+	out.Emit(res)
+}
+
 func main() {
 	mode := flag.String("mode", "certs", "")
 	cases := flag.String("cases", "", "")
@@ -889,6 +954,8 @@ func main() {
 	out := vio.NewOut(*outp)
 	if *mode == "certs" {
 		runCerts(*cases, out)
+	} else if *mode == "redial" {
+		runRedial(out, logrus.NewEntry(lg))
 	} else if *mode == "links" {
 		runLinks(*cases, out, logrus.NewEntry(lg))
 	} else if *mode == "dial" {
